@@ -348,6 +348,7 @@ P["C10"] = {
         K("c10.write_all.step", "io_mod.rs", IOM + "c10_write_all_step", "WriteAll::poll_inner step", ["io::WriteAll::poll_inner"] + C10FN, bounded="buffer <= 16 bytes"),
         K("c10.write_all_vectored.step", "io_mod.rs", IOM + "c10_write_all_vectored_step", "WriteAllVectored::poll_inner step (2 buffers, empties anywhere): Ok iff the unsent suffix is empty", ["io::WriteAllVectored::poll_inner"] + C10FN, bounded="2 buffers <= 16 bytes"),
         K("c10.read_n.step", "io_mod.rs", IOM + "c10_read_n_step", "ReadN::poll step: eof / done iff last >= left / continue with remaining capacity, left - last, offset + last", ["io::ReadN::poll"] + C10FN, bounded="buffer <= 16 bytes"),
+        K("c10.readnbuf.pool", "uio.rs", "io_uring::io::verif_uio::c10_readnbuf_pool", "for every kind of read buffer: read_n/recv_n with a ReadBufPool buffer submit the same buffer-select request read() does, the kernel-chosen slot is counted (last_read) and owned, the continuation reads into the rest of that slot", ["io::<impl BufMut for ReadNBuf<B>>", "io_uring::io::ReadOp"], bounded="pool 4 x 8 bytes"),
         K("c10.skipbuf", "io_mod.rs", IOM + "c10_skipbuf", "SkipBuf::parts == (ptr+skip, len-skip), empty when skip >= len", ["io::SkipBuf::parts"], bounded="buffer <= 16 bytes"),
         K("c10.send_all.step", "net_mod.rs", NA + "c10_send_all_step", "SendAll::poll_inner step incl. flags and zero-copy mode on the continuation", ["net::SendAll::poll_inner"] + C10FN, bounded="buffer <= 16 bytes"),
         K("c10.send_all_vectored.step", "net_mod.rs", NA + "c10_send_all_vectored_step", "SendAllVectored::poll_inner step: Ok iff the unsent suffix is empty; flags and zero-copy mode kept", ["net::SendAllVectored::poll_inner"] + C10FN, bounded="2 buffers <= 16 bytes"),
